@@ -84,14 +84,20 @@ fn probes_on_pending(sim: &mut Sim, shape: &Shape) {
                 sim.probe(p);
             }
         }
-        if r.live_inner.get() > 0 {
-            sim.probe("inner_iter_held_across_pending");
+        if r.live_inner[0].get() > 0 {
+            sim.probe("inner_iter_held_across_pending/flat_map");
+        }
+        if r.live_inner[1].get() > 0 {
+            sim.probe("inner_iter_held_across_pending/flatten");
         }
         if r.live_fut.get() > 0 {
             sim.probe("future_in_flight_across_pending");
         }
-        if r.live_stream.get() > 0 {
-            sim.probe("inner_stream_held_across_pending");
+        if r.live_stream[0].get() > 0 {
+            sim.probe("inner_stream_held_across_pending/flat_map_stream");
+        }
+        if r.live_stream[1].get() > 0 {
+            sim.probe("inner_stream_held_across_pending/flatten_stream");
         }
         let ended = r.ended.get();
         if ended != 0 && pend & !ended & 0xff != 0 && shape.nsrc > 1 {
